@@ -2586,7 +2586,9 @@ class EdgeQLSourceGenerator(codegen.SourceGenerator):
             self.write(node.scope.to_edgeql())
             self._write_keywords(' RESET ')
         self.visit(node.name)
-        self._visit_filter(node)
+        if node.where:
+            self._write_keywords(' FILTER ')
+            self.visit(node.where)
 
     def visit_SessionSetAliasDecl(
         self, node: qlast.SessionSetAliasDecl
